@@ -7,7 +7,7 @@ HOOKS = {
     "add_only": True,
 }
 ENGINES = [
-    {"name": "grid", "path": "/verif/mc/props", "serves_properties": ["C01", "C02", "C04", "C05", "C06", "C07", "C12", "C14", "C15", "C16", "C17"],
+    {"name": "grid", "path": "/verif/mc/props", "serves_properties": ["C01", "C02", "C04", "C05", "C06", "C07", "C12", "C14", "C15", "C16", "C17", "C19"],
      "kind_free_text": "complete Cartesian products of finite input alphabets executed on the real code and compared with an explicit oracle or metamorphic relation"},
     {"name": "fault", "path": "/verif/mc/props/C08.py", "serves_properties": ["C08"],
      "kind_free_text": "fault-point enumerator: public-API fault menu x position and sys.settrace call-level injection, snapshot oracle"},
@@ -208,5 +208,17 @@ CHECKS["C14"] = dict(
     note="|I - expected| <= 10|I_N - I_2N| + floor(class)*integral|X| (+ node spacing term where the test surface cuts a body, because the "
          "integrand jumps along a curve there); integrals that do not reach 1e-6 (smooth) / 1e-2 (cuts) are counted as "
          "oracle_inconclusive. Cutting placements catch inside/outside inconsistencies (O(J*area)), smooth ones normalisation errors to 1e-6.")
+CHECKS["C19"] = dict(
+    engine="grid", level="exploration", design_ref="DESIGN.md §4 C19",
+    technique="bounded-exhaustive enumeration of (class x path kind x displayed frames x unit x nesting x animation form) through show(backend='plotly', return_fig=True); drawn traces mapped back through the inverse pose onto exact shape predicates",
+    text="11 displayable classes x {static, 3-step translating, 4-step rotating path} x style_path_frames {default, 1, 2, [0,2], [0,9] "
+         "(out of range -> last pose)} x units_length {m, mm, km with bodies of matching scale} x {bare, child of a moved+rotated "
+         "Collection, nested Collection} and animations (True, seconds, fps/time/slider kwargs) next to an object with a longer path. "
+         "Mesh vertices of magnets must lie on the body's surface for a displayed path index with equal shares per index and span the "
+         "extent; Triangle-based vertex sets must equal the posed vertices; conductor points must lie on the drawn line; the path "
+         "trace must pass through every position; Sensor/Dipole glyphs at the position (pixels inside, arrow along the moment); axis "
+         "titles announce the unit; objects, styles, caller dicts and global defaults byte-identical afterwards.",
+    note="Only the plotly backend's generic traces are inspected (matplotlib consumes the same generic traces; pyvista is outside). "
+         "Traces are attributed through a unique style colour per object; decorations are switched off via their style flags.")
 _todo = "check not built yet in this session (planned, see DESIGN.md §4); nothing is claimed for it"
 NOT_APPLICABLE = [{"property_id": f"C{i:02d}", "reason": _todo} for i in range(1, 21) if f"C{i:02d}" not in CHECKS]
